@@ -1064,6 +1064,32 @@ func init() {
 			rec(nil)
 			flushCorr()
 		}
+		// LONG flat lists (no parentheses) with ONE defect: a dangling, leading or doubled operator, a missing operator, at the
+		// start, in the middle and at the very end (a separate code path for long lists must reject what the grammar rejects)
+		for _, n := range []int{8, 31, 32, 33, 40, 63, 64, 65, 100, 257} {
+			ids := make([]string, n)
+			for i := range ids {
+				ids[i] = tblActive[(i*53+n)%len(tblActive)]
+			}
+			for _, op := range []string{" AND ", " OR "} {
+				good := strings.Join(ids, op)
+				half := strings.Join(ids[:n/2], op)
+				rest := strings.Join(ids[n/2:], op)
+				bad := []string{good + strings.TrimRight(op, " "), good + op + "WITH", strings.TrimLeft(op, " ") + good, half + op + strings.TrimLeft(op, " ") + rest,
+					half + " " + rest, good + " " + ids[0], good + " +", good + op + "(", half + op + ")" + op + rest, good + " WITH"}
+				for _, text := range append([]string{good}, bad...) {
+					res.Evaluations++
+					count("long_flat_lists_one_defect")
+					got := implVal([]string{text})
+					acc := got.panicv == nil && got.ok
+					k := &kase{Expr: text, ExprHex: hx(text)}
+					correspondNorm("P "+hx(text), map[bool]string{true: "ok", false: "err"}[acc], "accept/reject of a long flat list with one defect: model parse vs ValidateLicenses", k, okErr)
+					if acc != (text == good) {
+						fail(failure{Stream: "oracle", What: fmt.Sprintf("a flat list of %d terms with one defect is accepted (or the intact one rejected)", n), Case: k, Impl: fmt.Sprint(acc), Expected: fmt.Sprint(text == good)})
+					}
+				}
+			}
+		}
 		// ValidateLicenses on LONG lists with one out-of-grammar entry at EVERY position (work split into chunks skips the
 		// entries at the chunk borders when the bounds are off by one)
 		for _, n := range []int{256, 257, 258, 259, 300, scale(515, 1030)} {
